@@ -152,9 +152,16 @@ where
             Err(e) => return Some(Err(e)),
         };
 
+        // An index record refers to one slice of the container: a container with several slices has
+        // several index records (one per slice and reference sequence) with the same offset.
+        let landmarks = container.header().landmarks().to_vec();
+        let slice_landmark = index_record.landmark();
+
         let records = container
             .slices()
-            .map(|result| {
+            .zip(landmarks)
+            .filter(|(_, landmark)| u64::try_from(*landmark).is_ok_and(|n| n == slice_landmark))
+            .map(|(result, _)| {
                 let slice = result?;
 
                 let (core_data_src, external_data_srcs) = slice.decode_blocks()?;
